@@ -413,7 +413,7 @@ def _run_chunk(args):
     return out
 
 
-def run_batch(machines, plan, verif_seed, workers, per_run_limit=120,
+def run_batch(machines, plan, verif_seed, workers, per_run_limit=600,
               batch_limit=None, sample_indices=(0, 1, 2), stop_on_violation=True):
     """Run ``plan`` = list of (machine_cls, [run indices]) on a process pool.
 
